@@ -473,6 +473,12 @@ class Impl:
                 fr.numerator, fr.denominator))
             return val
 
+        if getattr(self, "star_prio", False):
+            # a priority function written with *args is as valid as one naming its four parameters
+            def star(*args):
+                return wrapper(*args)
+            star.__name__ = star.__qualname__ = getattr(inner, "__name__", "prio")
+            return star
         return wrapper
 
     def table_prio(self, seconds, job, max_exec, job_count):
@@ -523,6 +529,7 @@ class Impl:
         inner = {"linear": m["prioritization"].linear_priority_function,
                  "const": m["prioritization"].constant_weight_prioritization,
                  "table": self.table_prio}[prio]
+        self.star_prio = ((now // 1000) + mx) % 3 == 0       # a function of the history: replays agree
         kw = dict(max_exec=mx, tzinfo=tzof(tz), priority_function=self.prio_wrapper(inner),
                   jobs=jobs, n_threads=self.n_threads)
         if self.user_logger:
